@@ -123,6 +123,38 @@ def run(ctx):
         return None
     guarded(r_val, "relative:textselection_by_offset", model.fns["sel.textselection_by_offset"], o2)
 
+    # ---------------- O2b: relative -> absolute conversion used by <selection>.textselection(offset) / STAMQL OFFSET
+    def o2b():
+        fn = model.fns["sel.absolute_offset"]
+        n = 0
+        for L in range(0, LMAX + 1):
+            for pb in range(0, L + 1):
+                for pe in range(pb, L + 1):
+                    parent = selection(pb, pe)
+                    plen = pe - pb
+                    for c1 in cursors(plen):
+                        for c2 in cursors(plen):
+                            n += 1
+                            b, e = resolve(c1, plen), resolve(c2, plen)
+                            inside = b is not None and e is not None and 0 <= b <= plen and 0 <= e <= plen
+                            try:
+                                r = model.run("sel.absolute_offset", parent, [offset(c1, c2)])
+                            except Panic as p:
+                                return ("%s panics (%s) for relative offset (%s, %s) in a selection %d..%d" % (fn.qual, p.kind, cname(c1), cname(c2), pb, pe), p.line)
+                            accepted = isinstance(r, tuple) and r[0] == "ok"
+                            if accepted and not inside:
+                                return ("%s accepts the relative offset (%s, %s) for a selection %d..%d (length %d) although a cursor lies outside that text: <selection>.textselection(offset) then returns text beyond the selection instead of an error" % (
+                                    fn.qual, cname(c1), cname(c2), pb, pe, plen), None, {"parent": [pb, pe], "begin": cname(c1), "end": cname(c2)})
+                            if not accepted and inside:
+                                return ("%s rejects the relative offset (%s, %s) for a selection %d..%d (length %d) although both cursors lie inside it" % (fn.qual, cname(c1), cname(c2), pb, pe, plen), None)
+                            if accepted:
+                                o = r[1]
+                                if not (isinstance(o, StructVal) and o["begin"] == B(pb + b) and o["end"] == B(pb + e)):
+                                    return ("%s turns relative (%s, %s) in %d..%d into %r instead of B(%d):B(%d)" % (fn.qual, cname(c1), cname(c2), pb, pe, o, pb + b, pb + e), None)
+        r_val.sample({"function": fn.qual, "cases": n})
+        return None
+    guarded(r_val, "relative:absolute_offset", model.fns["sel.absolute_offset"], o2b)
+
     # ---------------- O3: reporting in all four modes (resource level)
     owm = syn.fn("offset_with_mode", self_ty="Selector")
     ctx.functions_analysed.add(owm.qual)
